@@ -74,10 +74,12 @@ BASE = {'addr_bits': 16, 'origin': 0, 'page_size': 4, 'pre_zones_op': 'ZonesA', 
 def instances(tier):
     if tier == 'quick':
         yield 'core5', dict(BASE, max_len=5, win_end=14, emit_inv='EmitInc'), 'AlphaC17core', None
+        yield 'mute6', dict(BASE, max_len=6, win_end=14, emit_inv='EmitInc'), 'AlphaC17mute', None
         yield 'len4', dict(BASE, max_len=4, win_end=14, emit_inv='EmitInc'), 'AlphaC17', None
         yield 'sim8', dict(BASE, max_len=8, win_end=14, emit_inv='EmitInc'), 'AlphaC17', 'num=8000'
     else:
         yield 'core6', dict(BASE, max_len=6, win_end=14, emit_inv='EmitInc'), 'AlphaC17core', None
+        yield 'mute8', dict(BASE, max_len=8, win_end=14, emit_inv='EmitInc'), 'AlphaC17mute', None
         yield 'len5', dict(BASE, max_len=5, win_end=14, emit_inv='EmitInc'), 'AlphaC17', None
         yield 'sim8', dict(BASE, max_len=8, win_end=14, emit_inv='EmitInc'), 'AlphaC17', 'num=60000'
         yield 'sim11', dict(BASE, max_len=11, win_end=14, emit_inv='EmitInc'), 'AlphaC17', 'num=60000'
